@@ -1851,8 +1851,10 @@ def _same_cell(v, r):
         if math.isinf(fv) or math.isinf(fr):
             return fv == fr
         # pandas' default float parser is not correctly rounded: "up to the last digits of floating-point text"
-        # (measured: read_csv returns 0.0016982739998638 for the text 0.0016982739998638863, relative error 5e-14)
-        return fv == fr or abs(fv - fr) <= 2e-13 * max(abs(fv), abs(fr))
+        # (measured: read_csv returns 0.0016982739998638 for the text 0.0016982739998638863, relative error 5e-14, and
+        # 0.000405781000154 for 0.0004057810001540929: digits beyond the 15th decimal place are dropped).  Only the
+        # real-time column st_tuner_time has such values; everything else is on a dyadic grid and read back exactly.
+        return fv == fr or abs(fv - fr) <= 2e-13 * max(abs(fv), abs(fr)) + 2e-15
     return str(v) == str(r)
 
 
